@@ -54,6 +54,13 @@ def step (w : World) (line : String) : World × String :=
     let waiters := ((kv "waiters").splitOn ",").map fun t => s!"{t}:error"
     let (w1, r) := call w0 p (kv "then").toNat! true false
     (w1, s!"first=open waiters=[{",".intercalate waiters}] then={showRes r} opened={w1.opened - w.opened} live={if live w1 p then 1 else 0} maxlive=1")
+  | some "abandon" =>
+    -- a caller that gives up while it waits for the peer's sender leaves no trace: the request in progress keeps the
+    -- sender, the next one follows on the same stream
+    let w0 := disconnect { w with behs := w.behs.filter (fun e => e.1 != p), opens := w.opens.filter (fun e => e.1 != p) } p
+    let (w1, r1) := call w0 p (kv "first").toNat! true false
+    let (w2, r2) := call w1 p (kv "then").toNat! true false
+    (w2, s!"first={showRes r1} abandoned=canceled then={showRes r2} opened={w2.opened - w.opened} live={if live w2 p then 1 else 0} maxlive=1")
   | some "par" =>
     let calls : List (Nat × Nat) := ((kv "reqs").splitOn ",").filterMap fun t =>
       match t.splitOn ":" with
@@ -96,6 +103,13 @@ def verdict (_ : Unit) (line : String) : Unit × String :=
     let th := C09.kvOf iw "then"
     if bad || (th.toNat?.isSome && th != kv "then") then ((), "FAIL a request was handed another request's reply")
     else if (C09.kvOf iw "maxlive").toNat! > 1 then ((), "FAIL two streams to one peer were open at the same time") else ((), "ok")
+  | some "abandon" =>
+    let f := C09.kvOf iw "first"
+    let th := C09.kvOf iw "then"
+    if (f.toNat?.isSome && f != kv "first") || (th.toNat?.isSome && th != kv "then") then
+      ((), "FAIL a request was handed another request's reply")
+    else if (C09.kvOf iw "maxlive").toNat! > 1 then ((), "FAIL two streams to one peer were open at the same time")
+    else ((), "ok")
   | some "par" =>
     let rs := splitList (C09.kvOf iw "res")
     let bad := rs.any fun (t : String) => match t.splitOn ":" with
